@@ -2,10 +2,18 @@
 from checks.numlib import *
 
 META = {
-    "text": "Lean theorems about the balance primitives of Model.Numscript.Spec (withdrawAll bounded by balance+overdraft, frame, repay) — the full "
-            "no_overdraw over Spec.run is being built on them; Spec is tied to compiler+VM by a seeded end-to-end differential; an independent floor "
-            "oracle replays every accepted posting list against the balances it ran on.",
-    "note": "Trusted: Lean kernel; Spec as the reading of Numscript; harness pretty-printer (text<->AST); math/big as Int. PARTIAL at the theorem level until no_overdraw is proved (see evidence.coverage.partial).",
+    "text": "Lean theorem no_overdraw over Model.Numscript.Spec.run (all constructs: ordered/capped/portioned sources and destinations, kept, "
+            "overdrafts, world/unbounded fallbacks, both save forms, any number of statements): walking the postings of an accepted run in order with the "
+            "running real balance, every posting whose source is not world and whose overdraft the script bounds leaves that account at or above "
+            "-(largest overdraft the text grants it) — grants = max over the account's source occurrences, none for @world / unbounded. Proved through a "
+            "frame invariant (real = tracked + saved + in flight; tracked+saved >= -grant unless nothing is in flight) carried through "
+            "evalSource/takeFromSource/evalDest/evalSend/evalStmts (withdrawAll_keeps, withdrawAlways_keeps + fallback_only_unbounded, repay_keeps, emit_floor, "
+            "source_keeps, dest_keeps, send_keeps, stmt_keeps), plus short_sources_reject (bounded sources that cannot cover a send => the run is "
+            "insufficient_funds, nothing emitted). Spec is tied to compiler+VM by a seeded end-to-end differential; an independent floor oracle replays "
+            "every accepted posting list against the balances it ran on.",
+    "note": "Trusted: Lean kernel; Spec as the reading of Numscript; harness pretty-printer (text<->AST); math/big as Int. The theorem is about Spec; its lift to "
+            "the bytecode VM rests on the differential (until C08's compile_correct). An account named world reached through a variable is outside the "
+            "floor, like the literal (the property excludes world).",
     "technique": "Lean 4 proof (invariant over the Spec interpreter) + differential correspondence Spec vs compiler+VM + floor-replay oracle",
     "design_ref": "5 (C01), appendix A",
 }
@@ -21,7 +29,6 @@ def cause(inp):
 
 def run(ctx):
     ctx.cov["trusted_base"] = TRUSTED
-    ctx.cov["partial"] = "theorem level covers the balance primitives; the end-to-end floor theorem over Spec.run is not finished"
     ctx.l1()
     r = run_numscript(ctx, 1500 if ctx.quick else 60000)
     if r is None:
